@@ -24,13 +24,14 @@ ASSUMPTIONS = [
     'pairs are fed as (R1,R2) tuples in the order a coordinate-sorted BAM delivers them (sorted by the start of the later mate); the real MatePairIterator path is exercised by the pipeline engines',
     'precondition of the statement honoured by the generator: paired layouts keep longest fragment + read length <= cache_size/2 (a pair arrives at the start of its later mate and triggers the check at the fragment end), single-end layouts keep read length < cache_size/2 (a read arrives at its start and triggers the check at its end)',
     'umi_hamming_distance=0 (the statement requires cross-pooling equality only for exact UMI comparison)',
-    'for the base Fragment/Molecule classes (fragments linked through a shared start or end, spans growing by chaining) there is no site-based truth and the two pooling methods compare differently (per fragment vs against the molecule span): only schedule independence within a pooling method, exactly-once and no-early-emission are checked there',
+    'for the base Fragment/Molecule classes (fragments linked through a shared start or end, spans growing by chaining) there is no site-based truth and the two pooling methods compare differently (per fragment vs against the molecule span): schedule independence within a pooling method, exactly-once and no-early-emission are checked there; equality ACROSS the pooling methods is required for those layouts on which the two linkage rules (two small reference models: any-member vs union-span, first open molecule in arrival order) prescribe the same partition',
 ]
 COMPONENTS = {
     'real': ['singlecellmultiomics.molecule.MoleculeIterator', 'Molecule.can_be_yielded/add_fragment', 'NlaIIIFragment', 'NlaIIIMolecule', 'pysam.AlignedSegment'],
     'stub': [],
 }
-REQUIRED_PROBES = ['fragment_at_coordinate_0', 'same_coordinates_on_two_contigs', 'abandoned_pass_then_full_pass', 'single_end_long_reads', 'plain_chained_fragments', 'ejection_popped', 'non_prefix_pop_list', 'final_flush_nonempty', 'duplicate_arrives_after_ejectable_unrelated']
+ISOLATE = True      # every case runs in a forked child of the worker: no repository state travels between cases
+REQUIRED_PROBES = ['plain_cross_pooling_comparable', 'fragment_at_coordinate_0', 'same_coordinates_on_two_contigs', 'abandoned_pass_then_full_pass', 'single_end_long_reads', 'plain_chained_fragments', 'ejection_popped', 'non_prefix_pop_list', 'final_flush_nonempty', 'duplicate_arrives_after_ejectable_unrelated']
 EXHAUSTIVE_NOTE = 'check_eject_every is enumerated exhaustively (None, 0..n) per sampled input and pooling method; inputs and cache sizes are sampled'
 
 
@@ -207,6 +208,7 @@ def execute(case):
         probe('duplicate_arrives_after_ejectable_unrelated')
 
     evals = 0
+    refs = {}
     for pooling in p['pooling']:
         ref = None
         for sched in case['schedules']:
@@ -238,6 +240,7 @@ def execute(case):
                 continue
             if sched is None:
                 ref = part
+                refs[pooling] = part
                 if truth is not None and part != truth:
                     viol.append({'property': PROPERTY, 'class': 'partition-differs-from-truth', 'signature': f'pooling{pooling}/no-eject',
                                  'detail': {'pooling': pooling, 'schedule': None,
@@ -259,6 +262,18 @@ def execute(case):
                              'signature': f"pooling{pooling}/{'split' if split else 'merged'}",
                              'detail': {'pooling': pooling, 'schedule': sched, 'early': early,
                                         'got_only': sorted(map(sorted, part - base))[:4], 'ref_only': sorted(map(sorted, base - part))[:4]}})
+    # ---- base classes: the two pooling methods compare differently (per member vs against the union span) and may legitimately differ on
+    # bridging layouts; where the two linkage rules (reference models below) prescribe the SAME partition, the statement's cross-pooling clause applies
+    if kind == 'plain' and 0 in refs and 1 in refs:
+        m0, m1 = _plain_models(header, fs)
+        if m0 == m1:
+            probe('plain_cross_pooling_comparable')
+            if refs[0] != refs[1]:
+                viol.append({'property': PROPERTY, 'class': 'pooling-methods-differ', 'signature': 'plain/no-eject',
+                             'detail': {'schedule': None, 'pooling0_only': sorted(map(sorted, refs[0] - refs[1]))[:4], 'pooling1_only': sorted(map(sorted, refs[1] - refs[0]))[:4],
+                                        'both_linkage_rules_prescribe': sorted(map(sorted, m0 - (refs[0] & refs[1])))[:4]}})
+        else:
+            probe('plain_linkage_rules_disagree')
     # ---- abandoned pass, then a complete pass on the same iterator object
     from singlecellmultiomics.molecule import MoleculeIterator, NlaIIIMolecule, Molecule
     from singlecellmultiomics.fragment import NlaIIIFragment, Fragment
@@ -292,6 +307,43 @@ def execute(case):
     return {'violations': viol, 'digest': log.digest(), 'probes': probes, 'faults': {}, 'evals': evals, 'sigs': sigs,
             'steps': log.n, 'nontrivial': any(s[1] for s in sigs),
             'extra': {'schedule_runs': evals}}
+
+
+def _plain_models(header, fs):
+    """partitions prescribed for the base Fragment/Molecule classes (exact UMIs, radius 0, arrival order, nothing ejected) by
+    rule 0: join the first open molecule having ANY member with equal (cell, strand, contig, UMI) and equal start or equal end;
+    rule 1: join the first open molecule whose UNION SPAN has equal start or equal end (same cell, strand, contig, UMI).
+    Attributes are read from real Fragment objects so that coordinates mean what the library means by them."""
+    from singlecellmultiomics.fragment import Fragment
+    items = []
+    for f in fs:
+        fr = Fragment([r for r in lib.build_pair(header, f)], umi_hamming_distance=0, assignment_radius=0)
+        items.append((f['n'], fr.sample, fr.strand, fr.span, fr.umi, fr.has_valid_span()))
+
+    def link(a_span, b_span):
+        return a_span[0] == b_span[0] and min(abs(a_span[1] - b_span[1]), abs(a_span[2] - b_span[2])) <= 0
+
+    out = []
+    for rule in (0, 1):
+        mols = []       # {'members': [...], 'key': (sample, strand, umi), 'span': [c, s, e]}
+        for n, sample, strand, span, umi, valid in items:
+            placed = False
+            for m in mols:
+                if not valid or m['key'] != (sample, strand, umi):
+                    continue
+                if rule == 0:
+                    hit = any(v and link(sp, span) for (_, sp, v) in m['members'])
+                else:
+                    hit = m['valid'] and link(tuple(m['span']), span)
+                if hit:
+                    m['members'].append((n, span, valid))
+                    m['span'][1], m['span'][2] = min(m['span'][1], span[1]), max(m['span'][2], span[2])
+                    placed = True
+                    break
+            if not placed:
+                mols.append({'members': [(n, span, valid)], 'key': (sample, strand, umi), 'span': list(span), 'valid': valid})
+        out.append({frozenset(x[0] for x in m['members']) for m in mols})
+    return out
 
 
 def _non_prefix_possible(fs, cache):
